@@ -2910,6 +2910,10 @@ impl HnswBackend {
                 .collect();
         }
 
+        // scan() takes doc_store.read() itself: release our guards first. Re-acquiring a read
+        // lock while holding one deadlocks as soon as a writer queues up in between.
+        drop(meta_index);
+        drop(store);
         self.scan(|meta| metadata_filter::matches(filter, meta))
     }
 
